@@ -13,6 +13,7 @@ import (
 	"sort"
 	"strings"
 	"sync"
+	"sync/atomic"
 
 	"github.com/pdfcpu/pdfcpu/pkg/api"
 	"github.com/pdfcpu/pdfcpu/pkg/pdfcpu/model"
@@ -188,14 +189,39 @@ func readFormExport(path string, defs []fieldDef) (map[string]any, []fieldState,
 	form, _ := forms[0].(map[string]any)
 	st := make([]fieldState, len(defs))
 	for i, f := range defs {
-		e := findField(form, groupOf[f.Type], f.Name)
+		g, e := locate(form, f.Type, f.Name)
 		if e == nil {
 			return nil, nil, fmt.Errorf("field %s (%s) missing in export", f.Name, groupOf[f.Type])
+		}
+		if g != groupOf[f.Type] {
+			textAsDate.Add(1)
 		}
 		st[i] = projectField(f.Type, e)
 	}
 	return doc, st, nil
 }
+
+// txGroups: pdfcpu exports a text (Tx) field among the date fields when it carries a date format action OR when its value or
+// default parses as a date; the group is a presentation detail, the model's state is the value.
+var txGroups = []string{"textfield", "datefield"}
+
+// locate finds the exported entry of a field: in the group of its type, and for Tx fields also in the other Tx group.
+func locate(form map[string]any, typ, name string) (string, map[string]any) {
+	g := groupOf[typ]
+	if e := findField(form, g, name); e != nil {
+		return g, e
+	}
+	if typ == "text" || typ == "date" {
+		for _, og := range txGroups {
+			if e := findField(form, og, name); e != nil {
+				return og, e
+			}
+		}
+	}
+	return g, nil
+}
+
+var textAsDate atomic.Int64 // how often a text field was exported among the date fields
 
 func findField(form map[string]any, group, name string) map[string]any {
 	arr, _ := form[group].([]any)
@@ -237,7 +263,7 @@ func fillJSON(doc map[string]any, defs []fieldDef, op []fieldOp) []byte {
 	json.Unmarshal(b, &cp)
 	form := cp["forms"].([]any)[0].(map[string]any)
 	for i, f := range defs {
-		g := groupOf[f.Type]
+		g, e := locate(form, f.Type, f.Name)
 		o := op[i]
 		if !o.Present {
 			arr, _ := form[g].([]any)
@@ -255,7 +281,6 @@ func fillJSON(doc map[string]any, defs []fieldDef, op []fieldOp) []byte {
 			}
 			continue
 		}
-		e := findField(form, g, f.Name)
 		if e == nil {
 			h.Die("field %s missing in the JSON to edit", f.Name)
 		}
@@ -574,5 +599,5 @@ func formReplay(in, fieldsFile, out string, workers int, samples bool) {
 		ns = formSamples(dir, idx+1, put)
 		os.RemoveAll(dir)
 	}
-	h.Summary(map[string]any{"cases": n, "records": steps, "samples": ns, "results": results})
+	h.Summary(map[string]any{"cases": n, "records": steps, "samples": ns, "results": results, "text_exported_as_date": textAsDate.Load()})
 }
